@@ -79,6 +79,15 @@ def gen_set(rng, tag, scc=False):
                 if rng.random() < 0.15:
                     # a row that is nothing but digits (looks like an SRT counter)
                     nodes += [['b'], ['t', rng.choice(['7', '12', '2024'])]]
+                if rng.random() < 0.12:
+                    # a blank row (empty or whitespace-only text) in the middle, directly followed by a
+                    # digit-only row (the last row, or one more follows): a reader that ends the cue at the blank row would take
+                    # the digits for a counter
+                    k = rng.choice([j for j, x in enumerate(nodes) if x[0] == 't'])
+                    tail = rng.choice([None, None, 'after', '00:00:01,000 --> 00:00:02,000', '9'])
+                    nodes[k + 1:k + 1] = [['b'], ['t', rng.choice(['', ' ', '  ', '\t', '\u00a0'])], ['b'],
+                                          ['t', rng.choice(['7', '12', '2024'])]] + \
+                                         ([['b'], ['t', tail]] if tail else [])
                 if all(_marker_free(x) for x in lines):
                     break
         caps.append({'start': t, 'end': t + dur, 'nodes': nodes, 'style': None, 'layout': None})
